@@ -40,7 +40,10 @@ META = {
                 'constructors stay hand-modelled / assumed (tied by the correspondence run)',
                 'SQL ORDER BY is specified as "some sorted permutation" (ties unspecified); SQLite is observed, not verified'],
     'modelled': ['SQLite (row order without ORDER BY = rowid order; NULLS FIRST ascending)', 'CPython list.sort (stable, reverse keeps ties in order)'],
-    'assumptions': ['orderBy items are attribute names with optional "-" (no SQL expressions)', 'ids are integers; objects are not per-connection instances'],
+    'assumptions': ['joins on InheritableSQLObject hierarchies (2-3 levels, every level may declare one-to-many / single / many-to-many joins with a '
+                    'plain class; objects are used through their most derived class, so ancestor joins go through the forwarding accessors and '
+                    'add/remove methods) are checked by the raw-SELECT oracle only; the Lean model has no inheritance',
+                    'orderBy items are attribute names with optional "-" (no SQL expressions)', 'ids are integers; objects are not per-connection instances'],
     'exhaustive': False,
 }
 
@@ -475,6 +478,227 @@ def run_history(ctx, schema, ops):
     return lines, expect
 
 
+
+# ------------------------------------------------------------------ joins on inheritable classes (oracle only)
+# P <- Q (<- G) is an InheritableSQLObject hierarchy, X a plain class.  Every level may declare joins of its own
+# (one-to-many from X through a key of X to that level, single join, many-to-many with X); an object is always used
+# through its most derived class, so the joins of its ancestors are reached through the forwarding accessors.
+HL = ['P', 'Q', 'G']
+_hb = {}
+
+
+def hi_build(schema):
+    key = json.dumps(schema, sort_keys=True)
+    if key in _hb:
+        return _hb[key]
+    sqlo.setup()
+    from sqlobject import SQLObject, ForeignKey, IntCol, RelatedJoin, SQLRelatedJoin, MultipleJoin, SQLMultipleJoin, SingleJoin
+    from sqlobject.inheritance import InheritableSQLObject
+    reg = sqlo.uniq('c13hreg')
+    conn = sqlo.mem_conn()
+    levels = HL[:schema['depth']]
+    classes = {}
+    parent = None
+    for lv in levels:
+        d = {}
+        if lv in schema['joins']:
+            ob = py_order(schema['joins'][lv])
+            d['xs%sl' % lv] = MultipleJoin('X', joinColumn='f%s_id' % lv.lower(), orderBy=ob)
+            d['xs%sq' % lv] = SQLMultipleJoin('X', joinColumn='f%s_id' % lv.lower(), orderBy=ob)
+            d['one%s' % lv] = SingleJoin('X', joinColumn='f%s_id' % lv.lower())
+            d['rel%sl' % lv] = RelatedJoin('X', intermediateTable='lt%s' % lv.lower(), joinColumn='ca', otherColumn='cb',
+                                           orderBy=ob, addRemoveName='R%s' % lv, createRelatedTable=False)
+            d['rel%sq' % lv] = SQLRelatedJoin('X', intermediateTable='lt%s' % lv.lower(), joinColumn='ca', otherColumn='cb',
+                                              orderBy=ob, addRemoveName='R%sQ' % lv, createRelatedTable=False)
+        if parent is None:
+            d.update({'sqlmeta': type('sqlmeta', (), {'registry': reg}), '_connection': conn})
+            classes[lv] = type(lv, (InheritableSQLObject,), d)
+        else:
+            classes[lv] = type(lv, (parent,), d)
+        parent = classes[lv]
+    d = {'sqlmeta': type('sqlmeta', (), {'registry': reg}), '_connection': conn, 'x': IntCol(default=None), 'y': IntCol(default=None)}
+    for lv in levels:
+        d['f%s' % lv.lower()] = ForeignKey(lv, cascade=POL[schema['policy'][lv]], default=None)
+        if lv in schema['joins']:
+            d['rx%s' % lv] = RelatedJoin(lv, intermediateTable='lt%s' % lv.lower(), joinColumn='cb', otherColumn='ca',
+                                         addRemoveName='RX%s' % lv, createRelatedTable=False)
+    classes['X'] = type('X', (SQLObject,), d)
+    for cls in classes.values():
+        cls.createTable()
+    for lv in levels:
+        conn.query('CREATE TABLE lt%s (ca INT, cb INT)' % lv.lower())
+    if len(_hb) > 100:
+        _hb.clear()
+    _hb[key] = (conn, classes)
+    return _hb[key]
+
+
+def hi_gen(rng):
+    depth = rng.choice([2, 2, 3])
+    levels = HL[:depth]
+    joins = {lv: rng.choice(ORDERS) for lv in levels if rng.random() < 0.8}
+    schema = {'depth': depth, 'joins': joins, 'policy': {lv: rng.choice(['k', 'k', 'n', 'c']) for lv in levels}}
+    ops = []
+    hs = []      # (id, leaf index)
+    xs = []
+    for _ in range(rng.choice([10, 16, 22])):
+        r = rng.random()
+        if len(hs) < 2 or r < 0.14:
+            hs.append((len(hs) + 1, rng.randrange(depth)))
+            ops.append(['newh', hs[-1][1]])
+        elif len(xs) < 2 or r < 0.30:
+            xs.append(len(xs) + 1)
+            ops.append(['newx', rng.choice([None, 1, 2, 2, 3]), rng.choice([None, 1, 2, 3])])
+        elif r < 0.55:
+            lv = rng.randrange(depth)
+            cands = [h for h, leaf in hs if leaf >= lv]
+            ops.append(['setfk', rng.choice(xs), lv, rng.choice(cands) if cands and rng.random() < 0.85 else None])
+        elif r < 0.90:
+            lv = rng.randrange(depth)
+            cands = [h for h, leaf in hs if leaf >= lv]
+            if cands:
+                ops.append([rng.choice(['add', 'add', 'rem']), lv, rng.choice(cands), rng.choice(xs), rng.choice(['h', 'hq', 'x'])])
+        elif r < 0.95:
+            ops.append(['delh', rng.choice(hs)[0]])
+        else:
+            ops.append(['delx', rng.choice(xs)])
+    return schema, ops
+
+
+def hi_run(ctx, schema, ops):
+    import sqlobject
+    conn, classes = hi_build(schema)
+    levels = HL[:schema['depth']]
+    for cls in classes.values():
+        conn.query('DELETE FROM %s' % cls.sqlmeta.table)
+    for lv in levels:
+        conn.query('DELETE FROM lt%s' % lv.lower())
+    conn.query('DELETE FROM sqlite_sequence')
+    conn.cache.clear()
+    done = []
+    leaf_of = {}
+
+    def live_h():
+        return [r[0] for r in conn.queryAll('SELECT id FROM %s ORDER BY id' % classes['P'].sqlmeta.table)]
+
+    def live_x():
+        return [r[0] for r in conn.queryAll('SELECT id FROM %s ORDER BY id' % classes['X'].sqlmeta.table)]
+    for op in ops:
+        try:
+            if op[0] == 'newh':
+                o = classes[levels[op[1]]]()
+                leaf_of[o.id] = op[1]
+            elif op[0] == 'newx':
+                classes['X'](x=op[1], y=op[2])
+            elif op[0] == 'setfk':
+                _, x, lv, h = op
+                if x not in live_x() or (h is not None and h not in live_h()):
+                    continue
+                setattr(classes['X'].get(x), 'f%sID' % levels[lv].lower(), h)
+            elif op[0] in ('add', 'rem'):
+                _, lv, h, x, side = op
+                if levels[lv] not in schema['joins'] or h not in live_h() or x not in live_x():
+                    continue
+                verb = 'add' if op[0] == 'add' else 'remove'
+                if side == 'x':
+                    getattr(classes['X'].get(x), '%sRX%s' % (verb, levels[lv]))(classes['P'].get(h))
+                else:
+                    # through the object's most derived class: forwarded to the declaring level when that is an ancestor
+                    getattr(classes['P'].get(h), '%sR%s%s' % (verb, levels[lv], 'Q' if side == 'hq' else ''))(classes['X'].get(x))
+            elif op[0] == 'delh':
+                if op[1] not in live_h():
+                    continue
+                try:
+                    classes['P'].get(op[1]).destroySelf()
+                except sqlobject.main.SQLObjectIntegrityError:
+                    pass
+            elif op[0] == 'delx':
+                if op[1] not in live_x():
+                    continue
+                classes['X'].get(op[1]).destroySelf()
+        except Exception as e:
+            done.append(op)
+            ctx.oracle_fail('C13:inherit:op-raises:%s' % sqlo.exc_name(e), 'operation %r on an inheritable hierarchy raised %r' % (op, e),
+                            {'mode': 'inherit', 'schema': schema, 'ops': list(done)})
+            return
+        done.append(op)
+        case = {'mode': 'inherit', 'schema': schema, 'ops': list(done)}
+        nonempty = False
+        attrs = {r[0]: (r[1], r[2]) for r in conn.queryAll('SELECT id, x, y FROM %s' % classes['X'].sqlmeta.table)}
+
+        def keyf(order):
+            def kf(i):
+                out = []
+                for key in order:
+                    v = attrs[i][int(key[1:])]
+                    t = (0, 0) if v is None else (1, v)
+                    out.append(t if key[0] == 'a' else (-t[0], -t[1]))
+                return tuple(out)
+            return kf
+        for h in live_h():
+            obj = classes['P'].get(h)
+            if type(obj).__name__ != levels[leaf_of[h]]:
+                ctx.oracle_fail('C13:inherit:wrong-class', 'P.get(%d) loads as %s, created as %s' % (h, type(obj).__name__, levels[leaf_of[h]]), case)
+                return
+            for lv in levels[:leaf_of[h] + 1]:
+                if lv not in schema['joins']:
+                    continue
+                order = schema['joins'][lv]
+                raw_fk = [r[0] for r in conn.queryAll('SELECT id FROM x WHERE f%s_id = %d ORDER BY id' % (lv.lower(), h))]
+                raw_rel = [r[0] for r in conn.queryAll('SELECT cb FROM lt%s WHERE ca = %d' % (lv.lower(), h))]
+                for name, raw in (('xs%sl' % lv, raw_fk), ('xs%sq' % lv, raw_fk), ('rel%sl' % lv, raw_rel), ('rel%sq' % lv, raw_rel)):
+                    what = '%s of %s %d (join declared on %s)' % (name, type(obj).__name__, h, lv)
+                    try:
+                        got = [o.id for o in getattr(obj, name)]
+                    except Exception as e:
+                        ctx.oracle_fail('C13:inherit:accessor-raises:%s' % sqlo.exc_name(e), '%s raised %r' % (what, e), case)
+                        return
+                    nonempty = nonempty or bool(got)
+                    if Counter(got) != Counter(raw):
+                        ctx.oracle_fail('C13:inherit:accessor-vs-relation', '%s returns %r, the stored relation holds %r' % (what, got, raw), case)
+                        return
+                    if order:
+                        ks = [keyf(order)(i) for i in got]
+                        if ks != sorted(ks):
+                            ctx.oracle_fail('C13:inherit:unsorted', '%s with orderBy %r returns keys %r' % (what, py_order(order), ks), case)
+                            return
+                try:
+                    one = getattr(obj, 'one%s' % lv)
+                    one = None if one is None else one.id
+                except Exception as e:
+                    ctx.oracle_fail('C13:inherit:accessor-raises:%s' % sqlo.exc_name(e), 'one%s of %s %d raised %r' % (lv, type(obj).__name__, h, e), case)
+                    return
+                if (one is None) != (not raw_fk) or (one is not None and one not in raw_fk):
+                    ctx.oracle_fail('C13:inherit:single-join', 'one%s of %s %d gives %r, referencing rows %r' % (lv, type(obj).__name__, h, one, raw_fk), case)
+                    return
+        for x in live_x():
+            xo = classes['X'].get(x)
+            for lv in levels:
+                if lv not in schema['joins']:
+                    continue
+                raw = [r[0] for r in conn.queryAll('SELECT ca FROM lt%s WHERE cb = %d' % (lv.lower(), x))]
+                try:
+                    got = [o.id for o in getattr(xo, 'rx%s' % lv)]
+                except Exception as e:
+                    ctx.oracle_fail('C13:inherit:accessor-raises:%s' % sqlo.exc_name(e), 'rx%s of X %d raised %r' % (lv, x, e), case)
+                    return
+                if Counter(got) != Counter(raw):
+                    ctx.oracle_fail('C13:inherit:asymmetric', 'rx%s of X %d returns %r, the link table holds %r' % (lv, x, got, raw), case)
+                    return
+        ctx.case(('inherit', json.dumps(schema, sort_keys=True), json.dumps(done)), nontrivial=nonempty, kind='inherit/' + op[0])
+
+
+def run_inherit(ctx):
+    d = os.path.join(os.path.dirname(os.path.dirname(os.path.abspath(__file__))), 'corpus', 'C13', 'inherit')
+    for path in sorted(glob.glob(os.path.join(d, '*.json'))):
+        data = json.load(open(path))
+        for c in (data if isinstance(data, list) else [data]):
+            hi_run(ctx, c['schema'], c['ops'])
+    for _ in range(ctx.budget(120, 2500)):
+        schema, ops = hi_gen(ctx.rng)
+        hi_run(ctx, schema, ops)
+
+
 def run(ctx):
     sqlo.setup()
     rng = ctx.rng
@@ -491,6 +715,7 @@ def run(ctx):
         lines, expect = run_history(ctx, schema, ops)
         all_lines += lines
         all_expect += expect
+    run_inherit(ctx)
     outs = ctx.model(all_lines)
     if outs is None:
         return
@@ -530,6 +755,9 @@ def replay(case):
         def count(self, *a):
             pass
     c = C()
-    run_history(c, case['schema'], case['ops'])
+    if case.get('mode') == 'inherit':
+        hi_run(c, case['schema'], case['ops'])
+    else:
+        run_history(c, case['schema'], case['ops'])
     text = ''.join('FAIL [%s] %s\n' % f for f in c.fails[:10]) or 'every accessor mirrors the stored relation after every step\n'
     return not c.fails, text
